@@ -2,6 +2,7 @@ package model
 
 import (
 	"fmt"
+	"regexp"
 	"strings"
 	"unicode"
 
@@ -43,6 +44,12 @@ var Large = Size{Depth: 5, MaxBlocks: 7, MaxInl: 8, InlDepth: 3}
 // for exclusion-by-finding).
 type Restrict struct {
 	NoRaw, NoHTMLBlocks, NoMultiLineInContainer, PlainTitles, PlainDests, NoImages, NoSetextMulti bool
+	// NoNestedInTight: items of tight lists hold a single block (no nested list)
+	NoNestedInTight bool
+	// TightParaOnly: items of tight lists are single paragraphs
+	TightParaOnly bool
+	// FormatSafeText: text avoids what the formatter does not re-escape (r2)
+	FormatSafeText bool
 }
 
 type Gen struct {
@@ -71,13 +78,24 @@ func (g *Gen) text() string {
 			sb.WriteString(" ")
 		}
 		if g.pick("punct?", 3) == 0 {
-			sb.WriteByte(puncts[g.pick("punct", len(puncts))])
+			c := puncts[g.pick("punct", len(puncts))]
+			if g.R.FormatSafeText && (c == '+' || c == '!') {
+				c = ','
+			}
+			sb.WriteByte(c)
 		} else {
 			sb.WriteString(g.word())
 		}
 	}
-	return sb.String()
+	t := sb.String()
+	if g.R.FormatSafeText {
+		// digits followed by '.' or ')' could end up first on a line
+		t = safeDigits.ReplaceAllString(t, "${1} ${2}")
+	}
+	return t
 }
+
+var safeDigits = regexp.MustCompile(`([0-9])([.)])`)
 
 func (g *Gen) title(multi bool) *string {
 	if g.pick("title?", 2) == 0 {
@@ -90,7 +108,11 @@ func (g *Gen) title(multi bool) *string {
 		t = g.text()
 	}
 	if multi && g.pick("titleml", 4) == 0 {
-		t = strings.TrimRight(t, " ") + "\n" + g.word() + " " + g.text()
+		if g.R.PlainTitles {
+			t = strings.TrimRight(t, " ") + "\n" + g.word() + " " + g.word()
+		} else {
+			t = strings.TrimRight(t, " ") + "\n" + g.word() + " " + g.text()
+		}
 	}
 	t = strings.TrimSpace(t)
 	return &t
@@ -445,7 +467,7 @@ func (g *Gen) refdef() *Block {
 }
 
 func (g *Gen) leafBlock(k int, c bctx, prev *Block) *Block {
-	ic := ictx{multi: true, cont: c.cont}
+	ic := ictx{multi: !(c.cont && g.R.NoMultiLineInContainer), cont: c.cont}
 	switch k {
 	case 0, 1, 2, 3:
 		return &Block{K: Para, Inl: g.blockInlines(ic)}
@@ -457,7 +479,7 @@ func (g *Gen) leafBlock(k int, c bctx, prev *Block) *Block {
 		}
 		return b
 	case 5:
-		ic.multi = !g.R.NoSetextMulti
+		ic.multi = ic.multi && !g.R.NoSetextMulti
 		return &Block{K: Setext, Level: 1 + g.pick("slevel", 2), Inl: g.blockInlines(ic)}
 	case 6:
 		return &Block{K: HR}
@@ -570,7 +592,11 @@ func (g *Gen) list(c bctx) *Block {
 		var it []*Block
 		if b.Tight {
 			var first *Block
-			switch g.pick("tightfirst", 6) {
+			tf := g.pick("tightfirst", 6)
+			if g.R.TightParaOnly {
+				tf = 5
+			}
+			switch tf {
 			case 0:
 				first = g.leafBlock(4, bctx{cont: true}, nil) // ATX
 			case 1:
@@ -579,7 +605,7 @@ func (g *Gen) list(c bctx) *Block {
 				first = g.leafBlock(0, bctx{cont: true}, nil)
 			}
 			it = []*Block{first}
-			if c.depth > 1 && g.pick("nested", 3) == 0 {
+			if c.depth > 1 && !g.R.NoNestedInTight && g.pick("nested", 3) == 0 {
 				sub := g.list(bctx{depth: c.depth - 1, cont: true})
 				// a nested list directly after a paragraph line can interrupt it
 				// only as a bullet list or an ordered list starting at 1
